@@ -36,7 +36,13 @@ TEmit ==
                /\ Chk("ElementIdentifiersLegal", \A k \in DOMAIN Ev.elem_ids : Legal(Ev.elem_ids[k]))
           ELSE TRUE
 
-TNext == TSort \/ TEmit
+(* the simulation-code patch rendered for the network and for its twin in which every electron is respelled "e-": two spellings of
+   one species never yield two slots, so the number of patch species and the field-type table are the same *)
+TTwin ==
+  /\ IsEv("PatchTwin")
+  /\ Chk("SpellingsShareOneSlot", Ev.same_count /\ Ev.same_fields)
+  /\ UNCHANGED ivars
+TNext == TSort \/ TEmit \/ TTwin
 TSpec == TInit /\ [][TNext]_<<ivars, tid, l>>
 Track ==
   /\ Chk("Inv:Bijection", Bijection)
